@@ -148,7 +148,7 @@ def execute(cases_, tier, seed):
                                             wc.placed, expected="w valid, prune(v) contained in prune(w), additions only defaults, roundtrip(w)=w",
                                             observed={"failing": items[:8], "ident": wc.ident},
                                             features={"shape": wc.placed.get("shape"), "ctx": wc.placed.get("ctx"), "id": wc.id,
-                                                      "shape_kind": (wc.placed.get("shape") or "").split("(")[0]},
+                                                      "shape_kind": (wc.placed.get("shape") or "").split("(")[0], **(wc.placed.get("tg") or {})},
                                             items=[b["instance"] for b in items]))
     res.evaluations = res.transitions
     res.extra["roundtrips"] = n_rt
